@@ -7,6 +7,7 @@ PROP = dict(
     level_note='The reference model is the library itself on a fresh object (differential), so a defect that shows identically on fresh and reused transformers is invisible here. Allocation failure is deliberately not injected (C19 only promises a new transformer works after it). Xerces-C/ICU uninstrumented.',
     design_ref='DESIGN.md section 7 (C06), 3.1 (address reuse), 5',
     run_timeout=150,
+    env={'VERIF_LSAN': '1'},      # LeakSanitizer check after every run: memory obtained outside the simulated manager (ICU objects, global new) and lost
     runs=dict(quick=2500, thorough=40000),
     nontrivial_counter=['transforms'],
     rule='One evaluation = one history. distinct_nontrivial = number of distinct trace hashes among histories with at least one transformation (hash over every op outcome and both output hashes of every compared pair).',
